@@ -146,6 +146,7 @@ func rulesC02(c *Ctx) {
 	R.Rule("R6", "fee limit argument of every pay call = stored FeeReserve or FeeReserve(AmountMsat/1000); backends forward maxFee", 4)
 	R.Rule("R7", "melt quote creation: Amount from the decoded invoice / MPP option, FeeReserve = FeeReserve(Amount) or 0", 3)
 	R.Rule("R8", "every input is counted once: the spent-table insert is a plain INSERT inside one transaction (a repeated secret fails the whole request)", 4)
+	R.Rule("R13", "melt decision table (shared with C05.R1 / C01.R5): inputs are released and the quote reset only on a definitive failure, spent only on success - a release while the payment can still go out lets the same value be swapped and paid", 20)
 	R.Rule("R12", "the checked-arithmetic helpers are what the guards take them for: OverflowAddUint64 / UnderflowSubUint64 answer 'ok' only when the operation did not wrap, AmountChecked tests the overflow flag of every single addition (shared with C03.R12)", 7)
 	R.Rule("R11", "an invoice is requested only for an amount proven to fit in millisats as a signed 64-bit number (the backends multiply by 1000 / convert to int64; a wrapped product gives an invoice for less than the quote)", 1)
 	R.Rule("R10", "internal settlement: the melt operation writes a mint quote's state only behind 'the melt quote's invoice equals the mint quote's stored payment request'", 1)
@@ -271,6 +272,9 @@ func rulesC02(c *Ctx) {
 				"a mint quote is credited by a melt only when the melted invoice is that quote's own invoice (the payment hash alone does not identify it: anyone can encode another amount around the same hash)", why)
 		}
 	}
+
+	// ---- R13 melt decision table (shared)
+	c.meltDecisionTable("R13", false)
 
 	// ---- R12 the checked-arithmetic helpers the guards rely on
 	c.ruleCheckedArithmetic("R12")
